@@ -31,10 +31,21 @@
       - sdk.Coins is a list (denom, amount) read through [amt] (sum per denom); Coins.Add is list
         append.  Validity of message coins (sorted, no duplicate, positive, non-empty) is checked
         where Go checks it;
-      - accounts carry no locked coins (no vesting, no holds), every denom is send-enabled and is
-        not a marker denom, nobody is sanctioned: the marker and sanction send restrictions that run
-        before the quarantine one let the transfer through unchanged.  The quarantine holder is not
-        a blocked address (it is not in maccPerms);
+      - accounts carry no locked coins (no vesting, no holds), every denom is send-enabled, nobody
+        is sanctioned: the sanction send restriction lets every transfer through unchanged.  The
+        quarantine holder is not a blocked address (it is not in maccPerms);
+      - the marker send restriction (x/marker/keeper/send_restrictions.go SendRestrictionFn /
+        validateSendDenom) runs BEFORE the quarantine one (app wiring, Properties/Wiring.v) and is
+        modelled for the markers the harness creates: [s_xfer] lists the denoms that have an ACTIVE
+        RESTRICTED marker without required attributes, without send-deny entries and without
+        transfer agents in the context, each with the addresses that hold Access_Transfer on it.
+        A transfer whose coins contain such a denom passes iff the sender has Transfer access or is a
+        required-attribute bypass address; of the accounts in play only the quarantine holder is
+        one (app.go markerReqAttrBypassAddrs, checked by the wiring obligations), which is what
+        lets the holder pay restricted coins out on accept.  No account in play is a marker account
+        or the fee collector.  The marker restriction never changes the destination.  Denoms not in
+        [s_xfer] have no marker (or a plain coin marker): passed through.  [s_xfer] is constant: no
+        operation of the model changes markers;
       - an operation that returns an error or panics leaves the state as it was ([step] returns the
         old state).
     No proofs in this file. *)
@@ -119,17 +130,18 @@ Record state := {
   s_auto  : list ((addr * addr) * auto);                (* (to, from) -> accept / decline *)
   s_recs  : list (rkey * qrec);
   s_idx   : list ((addr * addr) * list (list addr));   (* (to, from) -> suffixes of multi-sender records *)
-  s_bal   : bal
+  s_bal   : bal;
+  s_xfer  : list (denom * list addr)                    (* restricted marker denom -> Access_Transfer holders *)
 }.
 
 Definition with_bal (s : state) (b : bal) : state :=
-  {| s_optin := s_optin s; s_auto := s_auto s; s_recs := s_recs s; s_idx := s_idx s; s_bal := b |}.
+  {| s_optin := s_optin s; s_auto := s_auto s; s_recs := s_recs s; s_idx := s_idx s; s_bal := b; s_xfer := s_xfer s |}.
 Definition with_optin (s : state) (o : list addr) : state :=
-  {| s_optin := o; s_auto := s_auto s; s_recs := s_recs s; s_idx := s_idx s; s_bal := s_bal s |}.
+  {| s_optin := o; s_auto := s_auto s; s_recs := s_recs s; s_idx := s_idx s; s_bal := s_bal s; s_xfer := s_xfer s |}.
 Definition with_auto (s : state) (a : list ((addr * addr) * auto)) : state :=
-  {| s_optin := s_optin s; s_auto := a; s_recs := s_recs s; s_idx := s_idx s; s_bal := s_bal s |}.
+  {| s_optin := s_optin s; s_auto := a; s_recs := s_recs s; s_idx := s_idx s; s_bal := s_bal s; s_xfer := s_xfer s |}.
 Definition with_recs (s : state) (r : list (rkey * qrec)) (i : list ((addr * addr) * list (list addr))) : state :=
-  {| s_optin := s_optin s; s_auto := s_auto s; s_recs := r; s_idx := i; s_bal := s_bal s |}.
+  {| s_optin := s_optin s; s_auto := s_auto s; s_recs := r; s_idx := i; s_bal := s_bal s; s_xfer := s_xfer s |}.
 
 (** ** Bank: balances *)
 Definition bal_add (b : bal) (a : addr) (c : coins) : bal :=
@@ -263,9 +275,20 @@ Definition decline_from (r : qrec) (froms : list addr) : option qrec :=
 Section WithHolder.
 Variable h : addr.                                    (* the quarantine funds holder *)
 
-(* SendRestrictionFn without bypass: new state and the address that is credited *)
+(* marker SendRestrictionFn / validateSendDenom for the coins of one transfer: every restricted
+   denom among them needs a sender with Access_Transfer, or a sender that is a required-attribute
+   bypass address (the marker has no required attributes); the holder is one *)
+Definition marker_ok (s : state) (from : addr) (c : coins) : bool :=
+  forallb (fun d => match aget Pos.eqb d (s_xfer s) with
+                    | None => true
+                    | Some l => mem from l || Pos.eqb from h
+                    end) (denoms c).
+
+(* the composed send restriction without bypass (marker, then quarantine): new state and the
+   address that is credited; [None] = the transfer is refused *)
 Definition restrict (s : state) (from to : addr) (c : coins) : option (state * addr) :=
-  if Pos.eqb from to || Pos.eqb from h then Some (s, to)
+  if negb (marker_ok s from c) then None
+  else if Pos.eqb from to || Pos.eqb from h then Some (s, to)
   else if negb (is_optin s to) || is_auto_accept s to [from] then Some (s, to)
   else match add_quarantined s c to [from] with
        | Some s' => Some (s', h)
@@ -337,8 +360,9 @@ Definition accept_one (to : addr) (froms : list addr) (st : option (state * coin
       | None => Some (s, rel)
       | Some r' =>
           if fully_accepted r' then
-            (* SendCoins(WithBypass(ctx), holder, to, coins) *)
-            if can_pay (s_bal s) h (q_coins r') then
+            (* SendCoins(quarantine.WithBypass(ctx), holder, to, coins): the quarantine restriction
+               is skipped, the marker restriction still runs with the holder as the sender *)
+            if marker_ok s h (q_coins r') && can_pay (s_bal s) h (q_coins r') then
               let b := bal_add (bal_sub (s_bal s) h (q_coins r')) to (q_coins r') in
               match set_record (with_bal s b) to r' with
               | Some s' => Some (s', rel ++ q_coins r')
@@ -434,18 +458,19 @@ Record genesis := {
   g_optin : list addr;
   g_auto  : list (addr * addr * auto);
   g_funds : list (addr * list addr * coins * bool);     (* to, unaccepted senders, coins, declined *)
-  g_bal   : list (addr * denom * Z)
+  g_bal   : list (addr * denom * Z);
+  g_xfer  : list (denom * list addr)                    (* restricted markers present at genesis *)
 }.
 
 Definition bal_of_list (l : list (addr * denom * Z)) : bal :=
   fun a d => fold_right (fun e acc => let '(a', d', x) := e in
                                       if Pos.eqb a a' && Pos.eqb d d' then x + acc else acc) 0 l.
 
-Definition empty_state (b : bal) : state :=
-  {| s_optin := []; s_auto := []; s_recs := []; s_idx := []; s_bal := b |}.
+Definition empty_state (b : bal) (x : list (denom * list addr)) : state :=
+  {| s_optin := []; s_auto := []; s_recs := []; s_idx := []; s_bal := b; s_xfer := x |}.
 
 Definition init_genesis (g : genesis) : option state :=
-  let s0 := empty_state (bal_of_list (g_bal g)) in
+  let s0 := empty_state (bal_of_list (g_bal g)) (g_xfer g) in
   let s1 := fold_left opt_in (g_optin g) s0 in
   let s2 := fold_left (fun s e => let '(to, from, r) := e in set_auto s to from r) (g_auto g) s1 in
   fold_left (fun st e =>
